@@ -38,7 +38,7 @@ def make_scenario(hist: list[dict], rng: random.Random, idx: int, *, kinds: tupl
         mbs = [rng.choice([1, 2, 7, 100, 4096, 65536, 1 << 20]) for _ in range(3)]
     return {"id": idx, "kind": kind, "loop": loop, "arole": rng.choice(["connect", "accept"]),
             "bufsize": bufsize, "unit": unit, "mb": mbs, "pace": rng.choice([0, 0, 1, 3]),
-            "rdelay": rng.choice([0, 0, 0.0005, 0.002]), "script": hist}
+            "rdelay": rng.choice([0, 0, 0.0005, 0.002]), "settle_calls": rng.random() < 0.5, "script": hist}
 
 
 # ---------------------------------------------------------------------------------------------------
@@ -432,6 +432,9 @@ async def _main(scn: dict) -> dict:
                         ops.start_soon(b.close, "B")
                         await yield_n(1)
                 else:   # step / lost: give every task a few cycles
+                    await yield_n(3)
+                    b.emit(ev="settle")
+                if scn.get("settle_calls") and a in ("rcall", "scall"):
                     await yield_n(3)
                     b.emit(ev="settle")
                 if pace:
